@@ -97,7 +97,8 @@ def gen(rng, tier):
                     'unit': fine, 'sampling': [1, fine, 0.1]}
         pvc = True
     pastify = mode == 'on' and any(x[0] in sg.FUTURE_OPS for x in sg.walk(ast))
-    sc = {'explicit': explicit, 'kind': kind, 'mode': mode, 'vars': vars_, 'ast': ast, 'pvc': pvc, 'pastify': pastify, 'modular': modular,
+    reparse = 'out = ((%s) >= (%s));' % (rng.choice(vars_), sg.fmt_num(rng.choice([0.75, 2.5, 0.0, 1.0]))) if rng.random() < 0.12 else None
+    sc = {'reparse': reparse, 'explicit': explicit, 'kind': kind, 'mode': mode, 'vars': vars_, 'ast': ast, 'pvc': pvc, 'pastify': pastify, 'modular': modular,
           'noise_seeds': [[rng.uniform(-1, 1) for _ in range(40)] for _ in range(3)]}
     if dense:
         sc['signals'] = dict((v, world.gen_dense_signal(rng, rng.randint(1, 6), start_q=0, max_gap_q=4)[0]) for v in vars_)
@@ -133,6 +134,14 @@ def sgn(v):
 
 
 def desc_of(sc):
+    d = _desc_of(sc)
+    if sc.get('reparse'):
+        # the object was parsed (and is re-parsed) in a parameter sweep: another threshold first
+        d['prior'] = {'spec': sc['reparse']}
+    return d
+
+
+def _desc_of(sc):
     dense = sc['kind'].startswith('ct')
     e = sc.get('explicit')
     if e and e['key'] == json.dumps(sc['ast']):
@@ -339,6 +348,10 @@ def run(sc):
 
 def shrinks(sc):
     dense = sc['kind'].startswith('ct')
+    if sc.get('reparse'):
+        c = copy.deepcopy(sc)
+        c['reparse'] = None
+        yield c
     if dense:
         if sc.get('nbatches', 1) > 1:
             c = copy.deepcopy(sc)
